@@ -278,6 +278,47 @@ def model_pins_fixed_modules_and_bounds_variables(S):
     S.ensure("model.a_capacity_equation_per_cell", len(cap) == len(cells))
 
 
+@contract(P, functions=[G + "optimize_allocation", G + "get_a", G + "get_neighbouring_cells"], budget_s=600, exact_feas_ms=50, crosscheck=False,
+          params=[dict(case=c) for c in ("empty_far_cells", "overfull_frozen_cell")],
+          scope="model construction on a concrete 4-cell design in which some cells have NO free ratio (the model is captured, nothing is solved)")
+def model_constrains_cells_without_free_ratios(S, case):
+    """added after seed C10-12 (capacity equation only where a ratio is a variable): the capacity constraint is stated for EVERY cell; where
+    every ratio is a constant it is the decided fact `sum <= 1`: true for a cell that is not over-full, and FALSE (the model is infeasible and
+    global floorplanning does not return) for a cell whose frozen ratios exceed 100% (GEKKO states a sum of constants through an intermediate variable)"""
+    o = opt()
+    from frame.die.die import Die
+    captured = {}
+
+    def capture(model, die, cells, threshold, max_iter=100, verbose=False, plotting_options=None):
+        captured.update(model=model, cells=cells)
+        raise _Stop()
+    Rectangle.undefine_epsilon() if S.mode != "sym" else None
+    if case == "empty_far_cells":
+        n = Netlist("Modules: {A: {area: 2, center: [2, 2]}, B: {area: 3, center: [2.5, 2]}}\nNets: [[A, B]]")
+        th = 0.9
+    else:       # two modules that both fill more than half of the first two cells: every ratio there is above the threshold and frozen
+        n = Netlist("Modules: {A: {area: 20, center: [4, 2]}, B: {area: 21, center: [4, 2]}}\nNets: [[A, B]]")
+        th = 0.55
+    d = Die("16x4", n)
+    d.split_refinable_regions(2.0, 4)
+    al = amod.create_initial_allocation(d)
+    disp = o.calculate_dispersions(n.modules, al, lambda x, y: x ** 2 + y ** 2)
+    S.patch(o, "solve_and_extract_solution", capture)
+    out = S.call(o.optimize_allocation, d, al, disp, th, 0.5, lambda x, y: x ** 2 + y ** 2)
+    S.ensure("model_frozen.construction_reaches_the_solver_call", out.raised(_Stop))
+    if "model" not in captured:
+        return
+    model, cells = captured["model"], captured["cells"]
+    from gekko.gk_variable import GKVariable
+    frozen = [c for c in range(len(cells)) if not any(isinstance(model.a[m][c], GKVariable) for m in model.a)]
+    S.ensure("model_frozen.the_instance_has_cells_without_free_ratios", len(cells) == 4 and len(frozen) >= 1)
+    eqs = [str(e.value) if hasattr(e, "value") else str(e) for e in model.gekko._equations]
+    cap = [e for e in eqs if "<=1" in e.replace(" ", "")]
+    S.ensure("model_frozen.a_capacity_constraint_per_cell_also_where_every_ratio_is_a_constant", len(cap) == len(cells))
+    if case == "overfull_frozen_cell":
+        S.ensure("model_frozen.the_instance_has_an_overfull_frozen_cell", any(sum(model.a[m][c] for m in model.a) > 1 for c in frozen))
+
+
 class _Stop(Exception):
     pass
 
